@@ -601,6 +601,14 @@ def cases(thorough):
             if t is not None and not beyond_agreement(v, "toml"):
                 yield (cls + ":" + style, "toml", t.encode("utf-8"), ("value", w))
                 docs["toml"].append(t)
+    # a quoted "<<" key that holds no mapping merges nothing: it is a key like any other (json documents are yaml documents)
+    for val in (1, "s", None, [1], [{"b": 1}]):
+        v = {"<<": val, "a": 2}
+        yield ("quoted-merge-sign-key:flow", "yaml", json.dumps(v).encode("utf-8"), ("value", expected_wire(v)))
+        if not isinstance(val, list):
+            for q in ("'", '"'):
+                t = "%s<<%s: %s\na: 2\n" % (q, q, json.dumps(val))
+                yield ("quoted-merge-sign-key:block", "yaml", t.encode("utf-8"), ("value", expected_wire(v)))
     # str
     for cls, v in py_values(thorough):
         if isinstance(v, str):
